@@ -795,19 +795,16 @@ pub fn run(tier: Tier) -> RunOutcome {
                 if failed(snap.status) {
                     had_failure = true;
                 }
+                // (Until the repairs F7 and F10 a solve after a numerically failed solve, and two
+                // failed solves, were not compared: the failed solve left state behind.  With
+                // both repaired the comparisons hold and are made; the probes only count.)
                 if after_failure_no_verdict && !both_numerical_error {
-                    // an earlier solve on this object gave up numerically and this one reaches
-                    // no verdict either (e.g. max_iter = 0 returning the starting point): the
-                    // point it stops at depends on what the failed solve left behind (the
-                    // starting-point KKT solve's failure is ignored and x keeps its old value);
-                    // the property promises equivalence of verdicts and objectives, not of
-                    // limit-cut iterates after a breakdown
-                    probe("c08_no_verdict_after_earlier_failure_not_compared");
-                } else if both_numerical_error {
-                    // both runs gave up (NumericalError / InsufficientProgress are not verdict
-                    // classes); where and with what garbage iterate a failing run gives up
-                    // depends on leftover state of earlier solves and is specified by no property
-                    probe("c08_both_failed_not_compared");
+                    probe("c08_no_verdict_after_earlier_failure_compared");
+                }
+                if both_numerical_error {
+                    probe("c08_both_failed_compared");
+                }
+                if false {
                 } else if !equil && !infinite_b {
                     // (4) bitwise
                     if let Some(d) = snap.diff_numeric(&fsnap) {
